@@ -16,7 +16,7 @@ func init() { registry["C03"] = propC03 }
 func propC03() *Property {
 	return &Property{
 		ID:          "C03",
-		Explanation: "Static path, dominance and table rules on jtp.Get and its helpers. Decided: (R1) every return of jtp.Get is an error return, a cache hit, the forwarded result of the recursive redirect call, or a success return that is dominated — in this order — by the https scheme test, the dial, a checked parseStatusLine, a status whitelist within {200,201,202,203} on every path, a checked validateHeaders on the frame's own tolerated list, and a checked JSON decode into the very map that is returned, with the frame's own URL as source; (R2) redirects are bounded: the only recursion passes maxRedirects minus a positive constant under maxRedirects != 0, the budget is unsigned and constant at every external call site, and there is one dial and one request per frame; (R3) the redirect target is the Location header resolved against the frame's own URL, a missing Location is an error, and the redirect branch is entered only for 3xx; (R4) validateHeaders returns nil only after at least one Content-Type header matched the tolerated list and no Content-Type header failed to match; MediaType.Matches is an equality test against the list; (R5) the status line recogniser is anchored and captures exactly three digits; (R6) the cache is keyed by everything that shapes the request and never stores an outcome that depends on the remaining redirect budget. (R6, addition) the cache key contains link.String(), the complete URL, so URLs that differ in scheme or fragment never share an entry; (R7) every string given to a status/header recogniser or compared with the end-of-head marker is a constant or result #0 of (*bufio.Reader).ReadString('\\n') at a point where that call's error is known nil: fragments of over-long or truncated lines (ReadLine, ReadSlice, Scanner) are never parsed as header lines. Not decided: that the header regexps recognise exactly the HTTP grammar, JSON decoding itself, LRU eviction.",
+		Explanation: "Static path, dominance and table rules on jtp.Get and its helpers. Decided: (R1) every return of jtp.Get is an error return, a cache hit, the forwarded result of the recursive redirect call, or a success return that is dominated — in this order — by the https scheme test, the dial, a checked parseStatusLine, a status whitelist within {200,201,202,203} on every path, a checked validateHeaders on the frame's own tolerated list, and a checked JSON decode into the very map that is returned, with the frame's own URL as source; (R2) redirects are bounded: the only recursion passes maxRedirects minus a positive constant under maxRedirects != 0, the budget is unsigned and constant at every external call site, and there is one dial and one request per frame; (R3) the redirect target is the Location header resolved against the frame's own URL, a missing Location is an error, and the redirect branch is entered only for 3xx; (R4) validateHeaders returns nil only after at least one Content-Type header matched the tolerated list and no Content-Type header failed to match; MediaType.Matches is an equality test against the list; (R5) the status line recogniser is anchored and captures exactly three digits; (R6) the cache is keyed by everything that shapes the request and never stores an outcome that depends on the remaining redirect budget. (R6, addition) the cache key contains link.String(), the complete URL, so URLs that differ in scheme or fragment never share an entry; (R7) every string given to a status/header recogniser or compared with the end-of-head marker is a constant or result #0 of (*bufio.Reader).ReadString('\\n') at a point where that call's error is known nil: fragments of over-long or truncated lines (ReadLine, ReadSlice, Scanner) are never parsed as header lines. (R8) every singleflight key in the module is uri.String() of the URL fetched inside the shared function. Not decided: that the header regexps recognise exactly the HTTP grammar, JSON decoding itself, LRU eviction.",
 		Assumptions: []string{
 			"regexp, encoding/json, net/url and lru behave as documented",
 			"a successful json.Decoder.Decode into *map[string]any yields a JSON object",
